@@ -32,7 +32,8 @@ CONSTANTS
     MaxReq,     \* bound on the number of requests
     InitTrees,  \* set of initial trees (functions location -> node; dirs/files only)
     MapRule,    \* "asis" | "strip"
-    Rewrite,    \* "asis" | "none" (sensitivity: target stored as sent)
+    Rewrite,    \* "asis" | "realdir" (proposed repair: judge the target from the
+                \* directory the link really lands in) | "none" (sensitivity)
     Fuel,       \* symlink expansions per walk before ELOOP
     EmitEsc,    \* TRUE: print the request history of every escaping transition
     Bias,       \* "all" | "ok": (simulation) only requests that succeed or escape
@@ -171,6 +172,12 @@ Then(a, b) == IF a.st = "err" THEN a
 SymTarget(f, old, new) ==
     IF Rewrite = "none" THEN old
     ELSE IF IsAbs(old) THEN MP(old)
+    ELSE IF Rewrite = "realdir" THEN
+         LET ap1 == MP(Join(Dirname(new), old))
+             rnd == <<"">> \o Real(f, Dirname(MP(new)))   \* realpath(dirname(mapped new))
+             ap2 == Join(IF rnd = <<"">> THEN <<"", "">> ELSE rnd, old) IN
+         IF Real(f, ap1) # Real(f, ap2)
+         THEN RelPath(ap1, IF rnd = <<"">> THEN <<"", "">> ELSE rnd) ELSE old
     ELSE LET newdir == Dirname(new)
              ap1 == MP(Join(newdir, old))
              mnd == MP(newdir)
